@@ -177,13 +177,34 @@ def r3(ctx: Ctx, m: pf.Module) -> None:
 def r4(ctx: Ctx) -> None:
     prog = sf.load_program()
     r = prog.routine('commit_batch_update')
+    flat = list(sf.all_statements(r.ast.body))
+    # the committed flag: read from this update's row, FOR UPDATE, inside the transaction
+    flag = None
+    for i, st in enumerate(flat):
+        if st.kind == 'select' and st.into and st.frm is not None and sf.table_names(st.frm) == ['batch_updates'] and \
+                sr.has_eq(st.where, 'batch_id', 'in_batch_id') and sr.has_eq(st.where, 'update_id', 'in_update_id'):
+            for (c, _), v in zip(st.cols, st.into):
+                if c.kind == 'col' and c.parts[-1].lower() == 'committed':
+                    flag = (i, st, text(v).lower())
+    ctx.need(flag is not None, 'commit_batch_update: read of batch_updates.committed not found')
+    i, st, var = flag
+    starts = [j for j, x in enumerate(flat) if x.kind == 'txn' and x.what == 'START TRANSACTION']
+    locked = st.lock == 'FOR UPDATE' and bool(starts) and starts[0] < i
+    ctx.check(locked, 'R4', f'{r.file}::commit_batch_update::committed flag read under lock', f'the already-committed decision is taken from a read that is not `FOR UPDATE` inside the transaction '
+              f'(lock `{st.lock or "none"}`, {"before" if not starts or starts[0] > i else "after"} START TRANSACTION): two overlapping commit requests both see committed = 0 and both add the '
+              'staged counts', r.file, r.line_of(st))
     n = 0
-    for st, guard in sf.guarded_statements(r.ast.body):
-        if ('cur_update_committed', True) in [(text(c), p) for c, p in guard]:
+    writes_unguarded = []
+    for x, guard in sf.guarded_statements(r.ast.body):
+        g = [(text(c).lower(), p) for c, p in guard]
+        if (var, True) in g:
             n += 1
-            ctx.check(not sf.written_tables(st) and st.kind != 'call', 'R4', f'{r.file}::commit_batch_update::already committed::{st.kind}', 'the already-committed branch writes: a repeated commit is not a no-op',
-                      r.file, r.line_of(st))
-    ctx.need(n >= 2, 'commit_batch_update: already-committed branch not found')
+            ctx.check(not sf.written_tables(x) and x.kind != 'call', 'R4', f'{r.file}::commit_batch_update::already committed::{x.kind}', 'the already-committed branch writes: a repeated commit is not a no-op',
+                      r.file, r.line_of(x))
+        elif sf.written_tables(x) and (var, False) not in g:
+            writes_unguarded.append(x)
+    ctx.need(n >= 1, 'commit_batch_update: already-committed branch not found')
+    ctx.check(not writes_unguarded, 'R4', f'{r.file}::commit_batch_update::writes only when not committed', f'{len(writes_unguarded)} write(s) happen regardless of the committed flag', r.file, r.line)
 
 
 def r5(ctx: Ctx, m: pf.Module) -> None:
@@ -252,7 +273,7 @@ def run(ctx: Ctx) -> None:
     ctx.rule('R1', 'batch / update creation: token look-up FOR UPDATE in the transaction, stored ids returned before any insert', 6)
     ctx.rule('R2', 'update ranges: next start = previous start + previous count, update_id + 1, read DESC LIMIT 1 FOR UPDATE, stored in like-named columns', 5)
     ctx.rule('R3', 'bunch replay: jobs insert first, duplicate-key returns, counters after it, one transaction', 4)
-    ctx.rule('R4', 'repeated commit writes nothing', 2)
+    ctx.rule('R4', 'repeated commit writes nothing: flag read FOR UPDATE inside the transaction, committed branch read-only, all writes under NOT committed', 4)
     ctx.rule('R5', 'job-group bunches only in order', 3)
     ctx.rule('R6', 'absolute id = start + relative - 1 at all client and server sites', 7)
     m = pf.load(FE)
